@@ -99,3 +99,27 @@ Section Machine.
         end
     end.
 End Machine.
+
+(* ------------------------------------------------------------------ *)
+(** * floating-point control state
+
+    The control bits of MXCSR (rounding mode, exception masks, FZ, DAZ) and the x87 control word
+    (precision and rounding control, exception masks) are callee-saved under the SysV AMD64 ABI.
+    None of the instruction forms above reads or writes them (the PUSH_FPCSR / POP_FPCSR macros
+    of src/myth_context_func.h - stmxcsr / fnstcw / fldcw / ldmxcsr - are compiled out because
+    src/myth_config.h defines MYTH_SAVE_FPCSR 0), and a *called* function returns with them
+    unchanged (ABI), so executing any instruction list leaves them as they are: an extended state
+    carries them next to the integer state, and [xrun] is [run] on the integer part. *)
+Record fpctl := mkFp { fp_mxcsr : Z; fp_x87cw : Z }.
+Record xstate := mkX { xcore : state; xfp : fpctl }.
+Inductive xoutcome := XNext (x : xstate) | XJump (v : Z) (x : xstate) | XStuck.
+
+Definition xrun (lbl : Z -> Z) (cb : Z -> state -> state) (c : list instr) (x : xstate) : xoutcome :=
+  match run lbl cb c (xcore x) with
+  | Next s => XNext (mkX s (xfp x))
+  | Jump v s => XJump v (mkX s (xfp x))
+  | Stuck => XStuck
+  end.
+
+Definition fp_eqb (a b : fpctl) : bool :=
+  (fp_mxcsr a =? fp_mxcsr b) && (fp_x87cw a =? fp_x87cw b).
